@@ -19,7 +19,8 @@ RULE = ("exhaustive: every tree with exactly 1..3 (thorough: ..4, plus operators
         "parentheses/blank layout) by a printer that knows only the spec table, parsed, decoded "
         "and compared. Non-trivial: >= 2 operator nodes where a parent/child pair has different "
         "precedence or an equal-precedence operator is nested on the right; distinct by term."
-        " Long runs: every binary operator in left-nested, right-nested and balanced runs of 5..33 (thorough: ..129) operands, alternating two-operator runs, unary chains.")
+        " Long runs: every binary operator in left-nested, right-nested and balanced runs of 5..33 (thorough: ..129) operands, alternating two-operator runs, unary chains."
+        " Plus a coverage-guided campaign (atheris/libFuzzer mutating the byte buffer that Hypothesis decodes through the same strategy, the same oracle inside the target; quick 3000-4000 executions, thorough 4 x 100000-150000).")
 ASSUMPTIONS = [
     "reference printer implements OData 4.01 5.1.1.14 (in > unary > mul > add > rel > eq > and > or)",
     "the singleton-list trailing comma is the library's documented deviation from the ABNF",
@@ -165,8 +166,23 @@ def chain_terms(tier):
         yield t
 
 
+def fuzz_target():
+    """(strategy, fn) for the coverage-guided campaign (vp.fuzz_prop)."""
+    strat = st.tuples(gen_syntax.exprs(4, gen_syntax.Cfg(full_unicode=False)), st.sampled_from(["minimal", "full", "random"]),
+                      st.integers(0, 2 ** 30))
+
+    def fn(p):
+        case = {"term": to_json(p[0]), "mode": p[1], "style_seed": p[2]}
+        r = check_case(case)
+        return (r[0], r[1], case) if r else None
+    return strat, fn
+
+
 def plan(tier, seed, scale):
     tasks = [{"name": "chains", "kind": "chains", "tier": tier}]
+    for i in range(1 if tier == "quick" else 4):
+        tasks.append({"name": "covfuzz-%d" % i, "kind": "covfuzz", "shard": i,
+                      "runs": int((3000 if tier == "quick" else 150000) * scale)})
     K = 16
     ns = [1, 2, 3] if tier == "quick" else [1, 2, 3, 4]
     for n in ns:
@@ -194,6 +210,10 @@ def has_list_op(t):
 
 
 def run_task(task, seed, acc):
+    if task["kind"] == "covfuzz":
+        from ..runner import run_covfuzz
+        run_covfuzz(__name__, task, seed, acc)
+        return
     if task["kind"] == "chains":
         for t in chain_terms(task["tier"]):
             for mode in ("minimal", "full"):
